@@ -162,6 +162,23 @@ func Quiet() (bool, []G) {
 	// by its watchdog as inconclusive, never as a verdict.)
 	for _, g := range a {
 		if g.State == "IO wait" {
+			// Readiness the netpoller has not delivered yet (a writer whose
+			// peer has just drained the queue, a reader whose data has just
+			// arrived) leaves no trace in a dump. An idle Go process polls the
+			// network at least every 10 ms (sysmon): the picture has to stay
+			// the same, with no unread bytes anywhere, for a dozen such periods.
+			for r := 0; r < 12; r++ {
+				if socketsPending() {
+					return false, a
+				}
+				time.Sleep(10 * time.Millisecond)
+				b := Snapshot()
+				sb, ok := sig(b, self)
+				if !ok || sb != sa {
+					return false, b
+				}
+				a = b
+			}
 			if socketsPending() {
 				return false, a
 			}
